@@ -59,12 +59,21 @@ theorem C18_sites_classes : ∀ s ∈ Gen.InplaceSites.sites, s.classConsistent 
   have h : Gen.InplaceSites.sites.all (fun s => s.classConsistent) = true := by decide +kernel
   exact fun s hs => List.all_eq_true.mp h s hs
 
-/-- every entry of the named-clause list is used (no stale entries): it matches a library row that the
-    discipline rejects -/
+/-- What is true of the named-clause list NOW: it is EMPTY, so no row of ANY table is accepted `byClause`
+    (round 3; the list lost its last entry when `Identity.to` was repaired, /repo aef9931).  The substantive
+    statement about the rows is `C18_sites_no_exemption`: discipline or checked reason, nothing else. -/
+theorem C18_allow_list_empty : allowList = [] ∧ ∀ s : Site, s.byClause = false :=
+  ⟨rfl, fun _ => rfl⟩
+
+/-- (kept from rounds 1–2, NOT in the audited list any more: with `allowList = []` it holds vacuously; it is a
+    corollary of `C18_allow_list_empty`.)  Every entry of the named-clause list matches a library row that the
+    discipline rejects. -/
 theorem C18_allow_list_tight :
     ∀ a ∈ allowList, Gen.InplaceSites.sites.any
       (fun s => s.inScope && !writesOnlyFresh s.prog && a.file == s.file && a.func == s.func && a.target == s.target) = true := by
-  decide
+  intro a ha
+  rw [C18_allow_list_empty.1] at ha
+  cases ha
 
 /-- `C18_sites` + `C18_safe`: every library site that needs neither a reason nor the named clause
     (`allowed = false`) sits in a slice all of whose executions leave the caller's buffers alone.  The
@@ -348,7 +357,7 @@ end C18
 #print axioms C18.C18_safe_discipline_needed
 #print axioms C18.C18_sites
 #print axioms C18.C18_sites_classes
-#print axioms C18.C18_allow_list_tight
+#print axioms C18.C18_allow_list_empty
 #print axioms C18.C18_sites_safe
 #print axioms C18.C18_reasons_safe
 #print axioms C18.C18_sites_mechanical
